@@ -19,7 +19,9 @@ class DaemonLayer:
     def __init__(self, predicates, profile=None, quick=(16, 1200), thorough=(512, 3000), deaths=None, compare=True, leaks=False):
         self.leaks = leaks
         self.predicates = predicates; self.profile = profile or {}; self.quick = quick; self.thorough = thorough
-        self.deaths = deaths  # None: a predicted death just ends the run; else function(death_class) -> sig or None
+        # function(death_class) -> sig or None.  Default: any death of the real daemon that is not the known hostlist sort assert (F19,
+        # predicted by the model) is a failing input for every property of the daemon: nobody is served after it
+        self.deaths = deaths or default_deaths
         self.do_compare = compare
 
     def build(self):
@@ -143,19 +145,24 @@ def sleeping_calls(sim, prop='C05'):
     return out
 
 
+def default_deaths(cls):
+    if cls.startswith('assert:hostlist'): return None
+    return 'the daemon is killed (every session and device is lost): ' + cls
+
+
 def client_deaths(cls):
     # deaths attributable to client input: the fatal range hook (exit) and asserts inside hostlist.c
-    if cls == 'exit' or cls == 'hang' or cls.startswith('assert:hostlist') or 'client' in cls: return 'C06 daemon killed: ' + cls
+    if cls.startswith('exit') or cls == 'hang' or cls.startswith('assert:hostlist') or 'client' in cls: return 'C06 daemon killed: ' + cls
     return None
 
 
 def device_deaths(cls):
-    if cls == 'exit' or cls.startswith('assert:hostlist'): return None
+    if cls.startswith('assert:hostlist'): return None
     return 'C07 daemon killed: ' + cls
 
 
 def shutdown_deaths(cls):
-    if cls == 'exit' or cls.startswith('assert:hostlist'): return None
+    if cls.startswith('assert:hostlist'): return None
     return 'C20 daemon killed instead of shutting down: ' + cls
 
 
